@@ -107,6 +107,24 @@ theorem C09_get_neighbors_exact (g : Grid) (hi : Inv g) (hw : 0 < g.w) (hh : 0 <
     have hcg : g.inGrid c := hi.in_grid c (List.ne_nil_of_mem ((hi.pos_content a c).mp hp))
     exact ⟨c, (hmem c).mpr ⟨hcg, h1, h2⟩, hp⟩
 
+/-- **hex `get_neighbors` / `iter_neighbors`**: for a centre in the grid every cell of the neighbourhood is a cell
+    of the grid, so the raw indexing of `iter_cell_list_contents` reads exactly those cells, and the agents returned
+    are exactly the agents standing on hexagons within r steps (centre by flag), each once -/
+theorem C09_hex_get_neighbors_exact (g : Grid) (hi : Inv g) (hw : 0 < g.w) (hh : 0 < g.h) (pos : Coord) (hpos : g.inGrid pos)
+    (ic : Bool) (r : Nat) :
+    hexNeighbors g (hexCompute g.dim pos ic r) = .ok (cellsContents g (hexCompute g.dim pos ic r)) ∧
+    (cellsContents g (hexCompute g.dim pos ic r)).Nodup ∧
+    ∀ a, a ∈ cellsContents g (hexCompute g.dim pos ic r) ↔
+      ∃ c, g.pos a = some c ∧ (c = pos → ic = true) ∧ (c ≠ pos → Reach (hexNbrs g.dim) r pos c) := by
+  obtain ⟨hsorted, hmem⟩ := hex_spec g.dim pos ic r
+  have hin : ∀ c ∈ hexCompute g.dim pos ic r, g.inGrid c := hex_inGrid g.dim hw hh pos hpos ic r
+  obtain ⟨h1, h2⟩ := cellsContents_spec g hi _ hsorted.nodup
+  refine ⟨by unfold hexNeighbors; rw [rawCells_inGrid g _ hin], h1, fun a => ?_⟩
+  rw [h2]
+  constructor
+  · rintro ⟨c, hc, hp⟩; exact ⟨c, hp, (hmem c).mp hc⟩
+  · rintro ⟨c, hp, hc⟩; exact ⟨c, (hmem c).mpr hc, hp⟩
+
 /-- **NetworkGrid: exactly the nodes within r hops**, for any implementation `within` of
     `single_source_shortest_path_length(G, v, r).keys()` that meets its specification; the radius-1 special
     case (`G.neighbors`) obeys the same rule as the general case; centre by flag -/
@@ -160,6 +178,9 @@ example : (Net.init 4 [(2, 1), (1, 0), (3, 1)]).nbhd 1 true 1 = [2, 0, 3, 1] := 
 example : 3 ∈ ball (adjOf [(2, 1), (1, 0), (3, 1)]) 2 0 := by decide
 example : (init 3 2 false true 11).rawCells [(-1, -1), (0, 0)] = .ok [(2, 1), (0, 0)] := by rfl
 example : (init 3 2 false true 11).rawCells [(0, 0), (3, 0)] = .error .index := by rfl
+/-- a centre outside a bounded hex grid with `include_center`: the centre is in the list and `get_neighbors` aliases it -/
+example : hexCompute ⟨3, 3, false⟩ (-1, 0) true 1 = [(-1, 0), (0, 0)] := by decide
+example : hexNeighbors (run (init 3 3 false true 18) [.place 0 (2, 0)]) [(-1, 0), (0, 0)] = .ok [0] := by rfl
 /-- two agents on one node, one on another: the neighbours of node 0 within one hop, in `G.neighbors` order -/
 example : (nrun (Net.init 4 [(2, 1), (1, 0), (3, 1)]) [.place 0 1, .place 1 3, .place 2 1]).cellsContents
     ((Net.init 4 [(2, 1), (1, 0), (3, 1)]).nbhd 0 true 1) = [0, 2] := by decide
